@@ -820,12 +820,17 @@ fn lifetime(w: &mut World, mons: &Mons, p: &Plan, rng: &mut Rng) -> (Verdict, St
         if refuse_munmap {
             ip::disarm_all();
         }
+        let leftovers_of_refused_munmap = refuse_munmap;
         if mons.c17 && viol.is_none() {
             let after = watch_images(w);
             let ev = ip::since(m0).unwrap_or_default();
             if let Some(v) = flush_check(w, before.as_ref().unwrap(), &after, &[], &ev) {
                 viol = Some((v.0, v.1.s("during", if refuse_munmap { "drop with munmap refused" } else { "drop" })));
             }
+        }
+        if leftovers_of_refused_munmap {
+            // what the refused munmap calls left behind is the harness's to clean up
+            ip::harness_release_leftovers(ledger0);
         }
         if let Err(e) = r {
             std::panic::resume_unwind(e);
